@@ -561,6 +561,7 @@ int cmd_run(Options const& opt)
 
     // Aggregation
     long evaluations = 0;
+    long plans_run = 0;
     std::set<std::uint64_t> shapes;
     json stats = json::object();
     std::vector<json> samples;
@@ -575,9 +576,12 @@ int cmd_run(Options const& opt)
 
     auto handle_result = [&](long idx, json const& j) {
         RunResult r = result_from_json(j);
-        ++evaluations;
+        evaluations += r.weight;
+        ++plans_run;
         if (r.nontrivial)
             shapes.insert(r.shape);
+        for (auto x : r.extra_shapes)
+            shapes.insert(x);
         merge_stats(stats, r.stats);
         if (samples.size() < 3 && !r.sample.is_null())
         {
@@ -853,6 +857,7 @@ int cmd_run(Options const& opt)
     cov["samples"] = samples;
     cov["world"] = world->name();
     cov["runs_requested"] = runs;
+    cov["plans_run"] = plans_run;
     cov["runs_per_hour"] = search_s > 0 ? evaluations * 3600.0 / search_s : 0.0;
     cov["search_wall_s"] = search_s;
     cov["workers"] = nworkers;
